@@ -155,8 +155,8 @@ def configs(fp, cls):
             for flag in option_keys(cls):
                 mk("flag:" + flag, lambda kw, flag=flag: opts(kw, {flag: True}))
         if "solution_weights_superset" in sig:
-            mk("given_weights", lambda kw: (opts(kw), kw.update(solution_weights_superset=[1, 2, 3, 5])))
-            mk("given_weights_constraints", lambda kw: (cons(kw), kw.update(solution_weights_superset=[1, 2, 3, 5])))
+            mk("given_weights", lambda kw: (opts(kw), kw.update(solution_weights_superset=[3, 2, 3, 1, 11])))
+            mk("given_weights_constraints", lambda kw: (cons(kw), kw.update(solution_weights_superset=[3, 2, 3, 1, 11])))
         if "path_length_ranges" in sig:
             mk("length_ranges", lambda kw: (opts(kw), kw.update(path_length_ranges=[[0, 100]], path_length_factors=[1])))
         if "trusted_edges_for_safety" in sig:
@@ -437,6 +437,30 @@ def idempotence(ctx, cls, name, builder, obs):
         g2 = K.comparable(m.get_solution())
         o1 = m.get_objective_value() if hasattr(m, "get_objective_value") else None
         o2 = m.get_objective_value() if hasattr(m, "get_objective_value") else None
+        # the same getter with its optional argument in between: a trimmed view must not change what the plain call returns
+        import inspect
+        gsig = inspect.signature(orig if orig is not None else type(m).get_solution).parameters      # (the class getter is wrapped here)
+        gp = [a for a in ("remove_empty_paths", "remove_empty_walks") if a in gsig]
+        if gp and g1 is not None:
+            try:
+                t1 = K.comparable(m.get_solution(**{gp[0]: True}))
+                g4 = K.comparable(m.get_solution())
+                t2 = K.comparable(m.get_solution(**{gp[0]: True}))
+                f1 = K.comparable(m.get_solution(**{gp[0]: False}))
+                if g4 != g1:
+                    report(ctx, f"{cls} ({name}): get_solution() differs before and after a call get_solution({gp[0]}=True): "
+                                f"{str(g1)[:120]} vs {str(g4)[:120]}", inp, site=f"{cls}.get_solution:repeat")
+                elif t1 != t2:
+                    report(ctx, f"{cls} ({name}): two get_solution({gp[0]}=True) calls differ: {str(t1)[:120]} vs {str(t2)[:120]}",
+                           inp, site=f"{cls}.get_solution:repeat")
+                elif isinstance(f1, dict) and isinstance(t1, dict):
+                    for key in ("paths", "walks"):
+                        if key in f1 and key in t1 and len(t1[key]) > len(f1[key]):
+                            report(ctx, f"{cls} ({name}): the trimmed solution has more {key} than the untrimmed one", inp,
+                                   site=f"{cls}.get_solution:repeat")
+            except Exception as e:
+                report(ctx, f"{cls} ({name}): get_solution({gp[0]}=...) raised {type(e).__name__}: {str(e)[:100]}", inp,
+                       site=f"{cls}.get_solution:repeat")
         s2 = m.solve()
         g3 = K.comparable(m.get_solution())
         if g1 is None and g2 is not None:
@@ -615,6 +639,74 @@ def threads_history_case(ctx, suite="C18.history"):
                       site="history:threads")
 
 
+PROCESS_SNIPPET = r"""
+import sys, json, warnings, logging
+sys.path.insert(0, sys.argv[1]); sys.path.insert(0, sys.argv[2]); warnings.filterwarnings("ignore"); logging.disable(logging.CRITICAL)
+import flowpaths as fp
+from fpv import k4inputs as K
+out = []
+for st in json.loads(sys.argv[3]):
+    try:
+        kw = K.base_kwargs(fp, st["cls"])                    # fresh argument objects for every step
+        sig = K.signature(fp, st["cls"])
+        if "optimization_options" in sig:
+            kw["optimization_options"] = dict(st["opts"])
+        if st.get("constraints") and K.constraint_key(st["cls"]) in sig:
+            kw[K.constraint_key(st["cls"])] = [[tuple(e) for e in c] for c in st["constraints"]]
+        if "k" in kw:
+            kw["k"] += st.get("dk", 0)
+        m = K.build(fp, st["cls"], kw)
+        m.solve()
+        out.append(K.result_summary(st["cls"], m))
+    except Exception as e:
+        out.append({"error": type(e).__name__ + ": " + str(e)[:80]})
+print(json.dumps(out, default=str))
+"""
+
+PROCESS_OPTS = [{"optimize_with_greedy": False},
+                {"optimize_with_greedy": False, "optimize_with_safety_as_subpath_constraints": True},
+                {"optimize_with_greedy": False, "optimize_with_flow_safe_paths": False, "optimize_with_safe_paths": True,
+                 "optimize_with_safety_as_subpath_constraints": True},
+                {}]
+
+
+def process_state_case(ctx, rng, suite="C18.process_state"):
+    """every step gets fresh argument objects, so only state kept in the process (module-level caches, class attributes, solver
+    globals) can connect the steps: the last step run alone in a fresh interpreter must give what it gives after the others"""
+    import subprocess, sys, json as _json
+    fam = rng.choice(["dag", "dag", "cyc"])
+    classes = [c for c in (K.CYC if fam == "cyc" else K.DAG)]
+    steps = []
+    for _ in range(rng.randint(2, 3)):
+        cls = rng.choice(classes)
+        st = {"cls": cls, "opts": dict(rng.choice(PROCESS_OPTS)), "dk": rng.choice([0, 0, 1])}
+        if rng.random() < 0.5:
+            st["constraints"] = [[["a", "b"]]] if fam == "cyc" else [[["s", "a"], ["a", "b"]]]
+        steps.append(st)
+    if fam == "dag" and rng.random() < 0.6:          # the flow-decomposition pair that shares the most machinery
+        steps[0]["cls"] = "kFlowDecomp"; steps[-1]["cls"] = rng.choice(["kFlowDecomp", "MinFlowDecomp"])
+        steps[0]["constraints"] = [[["s", "a"], ["a", "b"]]]
+        steps[-1]["opts"] = dict(PROCESS_OPTS[1]); steps[-1].pop("constraints", None)
+
+    def run(seq):
+        p = subprocess.run([sys.executable, "-c", PROCESS_SNIPPET, str(common.REPO), str(common.VERIF / "harness"), _json.dumps(seq)],
+                           capture_output=True, text=True, timeout=600)
+        try:
+            return _json.loads(p.stdout.strip().splitlines()[-1])
+        except Exception:
+            return None
+    after, alone = run(steps), run(steps[-1:])
+    inp = {"family": "process", "history": steps}
+    ctx.rep.count(suite, inp, nontrivial=True, hist=[fam, f"len={len(steps)}"])
+    ctx.rep.cov["oracle_evaluations"] += 1
+    if after is None or alone is None:
+        raise common.Infra("process-state history: the helper interpreter produced no result")
+    if after[-1] != alone[-1]:
+        report(ctx, f"{steps[-1]['cls']}(optimization_options={steps[-1]['opts']}) gives {alone[-1]} as the first model of a process but "
+                    f"{after[-1]} after {[s['cls'] for s in steps[:-1]]} were built and solved with their own, fresh argument objects", inp,
+               site="history:process_state")
+
+
 # ----------------------------------------------------------------------------------------- entry points
 
 CLASSES = K.ALL_MODELS + ["NodeExpandedDiGraph", "stDAG", "stDiGraph", "AbstractPathModelDAG", "AbstractWalkModelDiGraph"]
@@ -646,6 +738,8 @@ def run(ctx):
         fam = "cyc" if it % 2 else "dag"
         history_case(ctx, fam, random_history(rng, fam))
     threads_history_case(ctx)
+    for it in range(ctx.n(5, 40)):
+        process_state_case(ctx, rng)
     ctx.rep.sample({"suite": "C18.mutation", "cls": "kLeastAbsErrors", "config": "plain",
                     "arguments": {"optimization_options": dict(NONEMPTY_OPTS), "solver_options": dict(SOLVER_OPTS)}})
     ctx.rep.sample({"suite": "C18.history", "history": [{"cls": "kLeastAbsErrors", "features": ["options", "given_weights"], "dk": 0},
